@@ -17,14 +17,37 @@ MANIFEST = {
             "RequestManager.__call__ (i) leaves the state untouched and answers unreachable/failure (never success) unless a handler is "
             "reached, (ii) changes state only through the reached handler, (iii) never answers unreachable when the path names existing "
             "components down to a handler, (iv) reports as failure only a permission rule lying on the request's own path at the reported "
-            "depth, all earlier rules holding, and (v) reaches the handler iff the target exists and every rule on the path holds. Tie: "
-            "shape of __call__/check_valid regenerated from core.py (Gen/RequestCore.lean) + rig R-req, which snapshots the live request "
-            "tree of real scenarios at random reachable states, evaluates every validator on the real objects, and compares status, depth, "
-            "handler and argument count with the model for every route, route mutations and requests formed from every registered action "
-            "type x existing/missing components; live mode checks the four documented statuses and state equality after refusals.",
+            "depth, all earlier rules holding, (v) reaches the handler iff the target exists and every rule on the path holds, and (vi) is "
+            "total on every request (empty, over-long, elements of any Python type; depth bounded by the length). Static part, over "
+            "tables regenerated from the source: every registered action's template resolves through the schematic request tree for every "
+            "node / software class it can address; on every live tree that is an instance (Inst) of the schema the rules met are exactly "
+            "the hand-written contract (expectedGuards), every component class carries its component gates on every edge of its root "
+            "manager (C05_component_gates: all node routes power-gated, incl. keys added by subclasses), and a false gate refuses the "
+            "request at that edge (C05_gate_refuses). Permission rules: every RequestPermissionValidator.__call__ (and get_folder / "
+            "get_file) is translated from the source and PROVED equal to its specification over a small model state; a failure names a "
+            "rule of the request's own route whose translated predicate is false on its own component. Dynamic part: the tree edits of "
+            "install / uninstall / connect / disconnect / create / restore / add / remove (addKey / removeKey at the dynamic manager under "
+            "a literal key of the owner's root manager) keep Inst for the edited inventory, are local, and leave no route through a "
+            "removed key; the regenerated schema meets the side conditions at every dynamic site, and every dynamic add site has a remove "
+            "site except the folder / file levels, whose stale keys are guarded by the exists / not-deleted rules. PARTIAL: 'every "
+            "request is answered' holds in the model only for requests that are refused or carry the options their handler reads "
+            "(C05_answered_partial / C05_answered_counterexample; open finding F-C05-2: 30 handlers raise IndexError on missing options). "
+            "Ties: Gen/RequestCore (shape of __call__/check_valid, unhashable-key guard), Gen/RequestSchema, Gen/ActionTemplates, "
+            "Gen/RequestValidators; rigs R-req (live trees at perturbed states incl. powered-off network devices: status, depth, handler, "
+            "#args vs the model; route mutations incl. unhashable / None / float / bool elements, empty and over-long requests; every "
+            "registered action x existing/missing components), the CONTRACT oracle and search (hand-written contract read from Lean, "
+            "evaluated on the object graph; one instance of every route-owning class driven into every gate-falsifying state; every "
+            "route raw + every action; suspects confirmed with the real handlers), deep state fingerprint (object-graph walk, logs "
+            "excluded) before/after every refused live request, R-schema, R-guards (real validator objects vs translated predicates), "
+            "R-edits (real tree edits vs addKey/removeKey), raw routes with the real handlers.",
     "note": "C05-specific: handlers are opaque state transformers in the model (what a reached handler does is covered by C12-C17); "
-            "that no code other than handlers mutates state on a refused request is carried by the rig's before/after comparison.",
-    "technique": "Lean 4 theorems over a model of request dispatch; regenerated shape table; differential rig on live request trees",
+            "that no code other than handlers mutates state on a refused request is carried by the rigs' before/after comparison "
+            "(describe_state and the deep fingerprint). Inst at the SIMULATION root after a deep edit is obtained by alternating "
+            "Inst_static_edit / Inst_dynamic_add along the path; only the one-component-level composite is stated as a single theorem. "
+            "The contract tables (expectedGuards, gate) are hand-written; the rigs validate Inst, the translation's input abstraction "
+            "and the edit sites against the running code, they do not prove them.",
+    "technique": "Lean 4 theorems over models of request dispatch, the schematic request tree, permission rules and tree edits; "
+                 "regenerated tables and translated predicates; differential rigs and a contract search on live request trees",
     "design_ref": "5/C05",
 }
 MODULES = ["PrimaiteModel.Props.C05"]   # the static part (harness/props/c05x.py) adds C05Schema, C05Guards, C05Inst
